@@ -88,4 +88,41 @@ def popAddNext : List PTree → List PTree → List PTree
 def copyRootSiblings (prologue epilogue : List PTree) : List PTree × List PTree :=
   (popAddPrevious (pushAll prologue.reverse) [], popAddNext (pushAll epilogue) [])
 
+/-! ## `Document.clone`
+
+`Document.clone` is `Document(self.root)`; the `tag_node_loader` makes a deep clone of the root
+(`data.clone(deep=True)`) and then `_copy_root_siblings(data, root)` — where every sibling that is
+popped from the stack is *copied* (`copy(stack.pop())`), i.e. gets fresh identities as well.  The
+identities are handed out in the order the copies are made: root first, then the prologue from
+the farthest sibling to the nearest (document order), then the epilogue from the farthest sibling
+to the nearest (reverse document order). -/
+
+/-- a document whose nodes carry identities -/
+structure PDoc where
+  prologue : List PTree
+  root : PTree
+  epilogue : List PTree
+deriving Repr
+
+/-- the identities of a document, in document order -/
+def idsOfDoc (d : PDoc) : List Nat := idsOfList d.prologue ++ idsOf d.root ++ idsOfList d.epilogue
+
+/-- `while stack: target.addprevious(copy(stack.pop()))` with the fresh-identity counter -/
+def popCopyAddPrevious (n : Nat) : List PTree → List PTree → List PTree × Nat
+  | [], acc => (acc, n)
+  | x :: st, acc => popCopyAddPrevious (cloneP n x).2 st (acc ++ [(cloneP n x).1])
+
+/-- `while stack: target.addnext(copy(stack.pop()))` with the fresh-identity counter -/
+def popCopyAddNext (n : Nat) : List PTree → List PTree → List PTree × Nat
+  | [], acc => (acc, n)
+  | x :: st, acc => popCopyAddNext (cloneP n x).2 st ((cloneP n x).1 :: acc)
+
+/-- `Document.clone`: deep clone of the root, then `_copy_root_siblings`; returns the clone and
+    the next free identity -/
+def cloneDocument (n : Nat) (d : PDoc) : PDoc × Nat :=
+  let r := cloneP n d.root
+  let p := popCopyAddPrevious r.2 (pushAll d.prologue.reverse) []
+  let e := popCopyAddNext p.2 (pushAll d.epilogue) []
+  ({ prologue := p.1, root := r.1, epilogue := e.1 }, e.2)
+
 end Delb.Clone
